@@ -445,7 +445,7 @@ FLOORS = {
     "C31": ["Recv.release:ok", "Ack.refund.", "Timeout.escrow:ok", "BankSend:ok", ".fwd:ok"],
     "C32": ["Ack.refund.", "Timeout.escrow:ok", "Timeout.mint:ok", "Ack.success:ok", "Ack:noop", "Timeout:noop", "Timeout:err",
             "tour:Timeout.escrow:ok", "tour:Timeout.mint:ok", "tour:Ack.refund.escrow:ok", "tour:Ack.refund.mint:ok"],
-    "C33": ["case:Recv.release:ok", "case:Transfer.v1.ret:ok", ".ret:ok", "walk:Recv.release:ok"],
+    "C33": ["case:Recv.release:ok", "case:Transfer.v1.ret:ok", ".ret:ok", "tour:Recv.release:ok", "tour:Transfer.v2.ret:ok", "tour:Transfer.alias.ret:ok"],
     "C34": ["table:path.accepted", "table:path.rejected", "table:esc", "Recv.mint1:ok", "Recv.mint2:ok"],
     "C49": ["Transfer.badsigner.v1:err", "Transfer.badsigner.v2:err", "Transfer.badsigner.alias:err", "Recv.mint1:ok",
             "Recv.release:ok", "Ack.refund.", "Timeout."],
